@@ -1,9 +1,93 @@
+import RsslVerif.Model.SourceMap
 import RsslVerif.Driver.Util
-/-! Line-protocol front end of the C14 model (stub until the model is built). -/
+/-! Line-protocol front end of the C14 model (source manager, message printer, edit arithmetic). -/
 namespace RsslVerif.Driver.C14
+open RsslVerif.Gen.SourceMapTables RsslVerif.Model.SourceMap RsslVerif.Driver
+
+def bytesToString (b : Bytes) : String :=
+  match String.fromUTF8? (ByteArray.mk b.toArray) with
+  | some s => s
+  | none => "?"
+
+/-- `hexname:hexcontents,hexname:hexcontents` (or `-` for no files) -/
+def parseFiles (s : String) : Option SourceManager :=
+  if s == "-" then some [] else
+  sequenceOpt ((s.splitOn ",").map fun item =>
+    match item.splitOn ":" with
+    | [n, c] => do
+      let nb ← unhex? n
+      let cb ← unhex? c
+      pure { name := bytesToString nb, contents := cb }
+    | _ => none)
+
+/-- `off:hex;off:hex` insertions in original coordinates, ascending (or `-`) -/
+def parseEdits (s : String) : Option (List (Nat × Bytes)) :=
+  if s == "-" then some [] else
+  sequenceOpt ((s.splitOn ";").map fun item =>
+    match item.splitOn ":" with
+    | [p, h] => do
+      let p ← p.toNat?
+      let b ← unhex? h
+      pure (p, b)
+    | _ => none)
+
+def showLoc : FileLocation → String
+  | .known n l c => n ++ ":" ++ toString l ++ ":" ++ toString c
+  | .unknown => unknownText
+
+def parseSev (s : String) : Option Severity :=
+  if s == "error" then some .Error else if s == "note" then some .Note else none
+
+def replaceAt {α : Type} (l : List α) (i : Nat) (a : α) : List α := l.set i a
 
 def handle (op : String) (args : List String) : String :=
-  let _ := (op, args)
-  "unsupported-op"
+  match op, args with
+  | "C14.locate", [files, raw] =>
+    match parseFiles files, raw.toNat? with
+    | some sm, some loc =>
+      let o := match getFileOffset sm loc with
+        | some (i, off) => toString i ++ ":" ++ toString off
+        | none => "none"
+      o ++ " " ++ showLoc (getFileLocation sm loc)
+    | _, _ => "bad-request"
+  | "C14.srcloc", [files, fileId, off] =>
+    match parseFiles files, fileId.toNat?, off.toNat? with
+    | some sm, some i, some o =>
+      match sourceLocation sm i o with
+      | .ok l => "ok:" ++ toString l
+      | .error _ => "panic"
+    | _, _, _ => "bad-request"
+  | "C14.render", [files, raw, sev, msg] =>
+    match parseFiles files, raw.toNat?, parseSev sev, unhex? msg with
+    | some sm, some loc, some sv, some m =>
+      match writeMessage sm m loc sv with
+      | .ok b => "ok:" ++ hex b
+      | .error _ => "panic"
+    | _, _, _, _ => "bad-request"
+  -- metamorphic request: files, which file is edited, the insertions, and where the diagnostic of the
+  -- unedited program pointed (`ok` | `err:-` | `err:<file index>:<offset>`); the model predicts the
+  -- verdict and the `file:line:col` of the diagnostic of the edited program
+  | "C14.meta", [_tgt, _mode, files, fileIdx, edits, base, track, _tag] =>
+    match parseFiles files, fileIdx.toNat?, parseEdits edits with
+    | some sm, some fi, some es =>
+      -- the span was not carried through the stages this model does not contain (macro expansion,
+      -- parsing, typing): nothing to predict from the source map alone
+      if track != "y" then "unsupported: span not carried through unmodelled stages"
+      else if base == "ok" then "ok"
+      else if base == "err:-" then "err -"
+      else match base.splitOn ":" with
+        | ["err", di, doff] =>
+          match di.toNat?, doff.toNat?, sm[fi]?, sm[di.toNat?.getD 0]? with
+          | some di, some doff, some f, some _ =>
+            let sm' := replaceAt sm fi { f with contents := applyEdits f.contents es }
+            let off' := if di == fi then moveThrough es doff else doff
+            match sourceLocation sm' di off' with
+            | .ok loc => "err " ++ showLoc (getFileLocation sm' loc)
+            | .error _ => "err panic"
+          | _, _, _, _ => "bad-request"
+        | _ => "unsupported: diagnostic without a decodable position"
+    | _, _, _ => "bad-request"
+  | "C14.disk", _ => "unsupported: files live on disk"
+  | _, _ => "unsupported-op"
 
 end RsslVerif.Driver.C14
